@@ -4,7 +4,7 @@ from dataclasses import dataclass
 from .stmt import (
     Stmt, IfBlock, VarDeclClause, ArrayDimRange, CallStmt,
     ReturnValueSetStmt, FunctionBlock, SubBlock, SimpleCaseClause,
-    RangeCaseClause, CompareCaseClause, CaseElseStmt,
+    RangeCaseClause, CompareCaseClause, CaseElseStmt, Block,
 )
 from .expr import Type, Expr, Lvalue, NumericLiteral, FuncCall
 from .program import Label, LineNo
@@ -250,7 +250,9 @@ class Pass1(CompilePass):
             self.compilation.def_letter_types[letter] = node.type
 
     def process_sub_block_pre(self, node):
-        if node.parent_routine.name != '_main':
+        if node.parent_routine.name != '_main' or \
+           isinstance(node.parent, Block):
+            # not inside another routine and not inside a block
             raise CompileError(
                 EC.ILLEGAL_IN_SUB,
                 'Sub-routine only allowed in the top-level',
@@ -281,7 +283,9 @@ class Pass1(CompilePass):
         self.compilation.routines[node.name] = routine
 
     def process_function_block_pre(self, node):
-        if node.parent_routine.name != '_main':
+        if node.parent_routine.name != '_main' or \
+           isinstance(node.parent, Block):
+            # not inside another routine and not inside a block
             raise CompileError(
                 EC.ILLEGAL_IN_SUB,
                 'Function only allowed in the top-level',
